@@ -5,16 +5,15 @@
  'params': {'GROUP': [1, 2]},
  'inject': [{'file': 'overlay:cxx/sv.c', 'func': 'static_vector_dtor', 'loop': 0, 'expect': 'pos < self->m_size',
              'assigns': 'pos, __CPROVER_object_whole(self->_data)',
-             'invariants': ['pos <= self->m_size', 'SPEC_INV(g_k)'],
+             'invariants': ['pos <= self->m_size', 'SPEC_CLR(g_k)'],
              'decreases': 'self->m_size - pos'},
-            {'file': 'overlay:cxx/sv.c', 'func': 'static_vector_dtor', 'ghost': 'G_INST(SPEC_INV(pos));', 'at': 'body-begin', 'loop': 0}],
+            {'file': 'overlay:cxx/sv.c', 'func': 'static_vector_dtor', 'ghost': 'G_INST(SPEC_CLR(pos));', 'at': 'body-begin', 'loop': 0}],
  'clauses': 'destructor, for every capacity N >= 1 and every valid state (elements LIVE or MOVED-from below size, RAW above): every constructed object is destroyed '
             'exactly once (ELEM_destroy only on LIVE|MOVED slots), every slot is RAW afterwards, nothing outside the storage is touched',
  'witness': {'unwind': 5},
  'assumptions': ['valid state on entry (SV with moved-from elements allowed), instantiated at the ghost slot and at the slot the loop destroys', 'T = ELEM, N = CAP arbitrary in [1, 2^36]'],
 } @*/
 #include "c14_sv.h"
-#define SPEC_INV(j) ((j) >= CAP || ((j) < pos ? ELEM_ST(&self->_data[j]) == ELEM_RAW : SV_SLOT_VALID(self, j)))
 #define C14_HAVE_SV
 #include "cxx/sv.c"
 #include "c14_harness.h"
